@@ -609,7 +609,7 @@ func Scenarios() []drv.Scenario {
 		mk(cfg{name: "copy-from-start-unsafe", copies: 1, startAt: 0, batches: 3, conf: unsafeAgg}, d1r, d2),
 		{Name: "slow-backup-of-builder-made-index", Body: bodySlowBuilder(true), Quick: d1r, Thorough: d2, Class: "backup", MaxSteps: 1500000},
 		{Name: "two-overlapping-backups-second-slow-unsafe", Doc: "two backups take their copy reader on the same never-persisted root; the fast one ends; merges, persists and purges; then the slow one copies", Body: bodyTwoOverlapping, Quick: d1r, Thorough: d2, Class: "backup", MaxSteps: 1500000},
-		{Name: "slow-backup-unsafe", Body: bodySlowBuilder(false), Quick: d1r, Thorough: d2, Class: "backup", MaxSteps: 1500000},
+		{Name: "slow-backup-unsafe", Body: bodySlowBuilder(false), Quick: nil, Thorough: d2, Class: "backup", MaxSteps: 1500000},
 		{Name: "backup-of-unpersisted-segments-with-obsoleted-documents-unsafe", Doc: "persister parked idle after batch 1; batches 2,3 in memory (3 obsoletes documents of 2); then CopyTo ∥ batch 4 ∥ persister resumes", Body: bodyUnpersisted(1, false), Quick: d1r, Thorough: d2, Class: "backup", MaxSteps: 1500000},
 		{Name: "backup-while-the-persister-writes-the-same-segment-unsafe", Doc: "persister parked idle after batch 1; batch 2 in memory; the persister is released and writes that one segment directly (zapx creates the file and fills it in place: a scheduling point in between) while CopyTo and batch 3 run", Body: bodyUnpersisted(1, true), Quick: d1r, Thorough: d2, Class: "backup", MaxSteps: 1500000},
 		{Name: "backup-of-unpersisted-segments-2-persister-workers-unsafe", Doc: "same with two persister workers merging in memory", Body: bodyUnpersisted(2, false), Quick: nil, Thorough: d1, Class: "backup", MaxSteps: 1500000},
